@@ -222,8 +222,16 @@ pub fn record(args: &[String]) {
         o.flush();
     }
     let mut out = Out::new(Some(&path));
+    let mut hung = 0u32;
     for (idx, r) in recs.iter().enumerate() {
+        // a describe() that never returns costs 30 s: after three such histories the recording stops (they are in the trace, with no output)
+        if hung >= 3 {
+            break;
+        }
         let got = run_child(&tmp, idx);
+        if got.get("died").and_then(|d| d.as_str()).map(|d| d.contains("did not return")).unwrap_or(false) {
+            hung += 1;
+        }
         let mut rec = r.clone();
         rec["actual"] = got["actual"].clone();
         out.line(&rec);
